@@ -132,10 +132,12 @@ func (e *engine) sweepContract(fn *ssa.Function) *funcContract {
 	balGhostsOf(fn, bal)
 	for _, n := range sortedKeys(bal) {
 		fc.ghosts = append(fc.ghosts, ghostDecl{name: n, typ: "map", init: "?"})
+		fc.ghosts = append(fc.ghosts, ghostDecl{name: relPrefix + n, typ: "map"})
 	}
 	if real := e.contractFor(fn); real != nil {
 		fc.lockHandoff = real.lockHandoff
 		fc.waitsHolding = real.waitsHolding
+		fc.absentUnused = real.absentUnused
 		fc.holds = real.holds
 		fc.readsUnlocked = real.readsUnlocked
 		fc.setupOnly = real.setupOnly
